@@ -79,13 +79,29 @@ def generate(ctx):
         gcase = dict(gens.graph_case(acc, k), t=t, fam=fam)
         for _w in range(ctx.pick(2, 3)):
             start = rng.choice(live)
-            n = rng.choice([3 * k + 4, 5 * k + 6, 9 * k + 8, 12 * k + 10])
+            n = rng.choice([3 * k + 4, 5 * k + 6, 9 * k + 8, 12 * k + 10, 20 * k + 12, 30 * k + 10])
             w = G.random_walk(acc, start, n, rng)
             if len(w) < 3 * k + 2:
                 continue
-            yield "single_edits", dict(gcase, start=int(start), walk=w, check=rng.choice([0, 0, 3, 6]))
+            yield "single_edits", dict(gcase, start=int(start), walk=w, check=rng.choice([0, 0, 1, 3, 6]))
             n = len(w)
-            for _m in range(ctx.pick(70, 150)):
+            # repeated contexts: the same edit at two (three) positions whose surrounding 2k symbols coincide while the
+            # symbols further upstream differ - where anything keyed on the local context goes wrong
+            for ctx_len in (2 * k, 2 * k - 1, k + 1):
+                seen_ctx = {}
+                for p in range(k, n - 2 * k):
+                    seen_ctx.setdefault(w[max(0, p - ctx_len // 2): p + (ctx_len + 1) // 2 + 1], []).append(p)
+                for key, ps in seen_ctx.items():
+                    pair = [ps[0]]
+                    for p in ps[1:]:
+                        if p - pair[-1] >= 3 * k + 2:
+                            pair.append(p)
+                    if len(pair) >= 2:
+                        for x in "ACGT":
+                            if x != w[pair[0]]:
+                                yield "edit_set", dict(gcase, start=int(start), walk=w, edits=[["S", p, x] for p in pair[:3]],
+                                                       check=rng.choice([0, 0, 4]), indel=rng.random() < 0.7, rep=True)
+            for _m in range(ctx.pick(70, 150) * (3 if k == 3 else 1)):
                 m = rng.choice([2, 2, 2, 3])
                 pos = _positions(rng, k, n - 2 * k, m, 3 * k + 2)
                 if pos is None:
@@ -99,7 +115,7 @@ def generate(ctx):
                         edits.append(["I", p, rng.choice("ACGT")])
                     else:
                         edits.append(["D", p])
-                yield "edit_set", dict(gcase, start=int(start), walk=w, edits=edits, check=rng.choice([0, 0, 4]),
+                yield "edit_set", dict(gcase, start=int(start), walk=w, edits=edits, check=rng.choice([0, 0, 1, 4]),
                                        indel=True if any(e[0] != "S" for e in edits) else rng.choice([True, False]))
 
 
@@ -172,6 +188,8 @@ def _judge(ctx, dsw, case, acc, k, w, edits, check_len, has_indel, sub_name):
             ctx.cls("edit|%s detected" % edits[0][0])
         else:
             ctx.cls("edit|%s undetectable (still a walk)" % edits[0][0])
+    if case.get("rep"):
+        ctx.cls("same edit at positions with identical local context")
     ctx.cls("has_indel=%s" % has_indel)
     ctx.cls("check|%s" % ("supplied" if check else "none"))
     ctx.cls("family|" + case.get("fam", "?"))
@@ -206,7 +224,8 @@ CHECKS = {"single_edits": check_single_edits, "edit_set": check_edit_set, "edit_
 def floors(agg, tier):
     out = []
     c = agg["classes"]
-    for name, need in (("edit sequences (same accessor object refilled in place)", 100), ("family|order-8", 50)):
+    for name, need in (("edit sequences (same accessor object refilled in place)", 100), ("family|order-8", 50),
+                       ("same edit at positions with identical local context", 1000)):
         if c.get(name, 0) < need:
             out.append("%s observed %d < %d" % (name, c.get(name, 0), need))
     ks = (1, 2, 3, 4) if tier == "quick" else (1, 2, 3, 4, 5)
